@@ -120,6 +120,16 @@ type stDoc struct {
 	LastSrv string   // id the server issued last for this URI ("" after close)
 	ArrText string   // text the held array was verified against by a full request
 	ArrOK   bool
+	// range answers not judged yet: no full result for their text was at hand and
+	// none was asked for (a full request would refresh the server's cache between
+	// an edit, the range request and the next delta)
+	Pending     []pendingRange
+	PendingText string
+}
+
+type pendingRange struct {
+	l1, l2 int
+	data   []uint32
 }
 
 func (c17) Run(ctx *RunCtx) {
@@ -244,6 +254,23 @@ func (c17) Run(ctx *RunCtx) {
 			doc.Arr = []uint32{}
 		}
 		doc.ArrText, doc.ArrOK = doc.Buf.String(), true
+		if len(doc.Pending) > 0 && doc.PendingText == doc.ArrText {
+			ft, _ := decodeTokens(doc.Arr)
+			for _, a := range doc.Pending {
+				var want []tokAbs
+				for _, t := range ft {
+					if t.line >= a.l1 && t.line <= a.l2 {
+						want = append(want, t)
+					}
+				}
+				if !sameData(a.data, encodeAbs(want)) {
+					fail("range", "range-differs-from-restricted-full", fmt.Sprintf("semanticTokens/range lines %d..%d of d%d (judged later, against the next full result for the same text) returned %v; the full result restricted to these lines is %v", a.l1, a.l2, doc.No, a.data, encodeAbs(want)))
+					return nil, false
+				}
+			}
+			ctx.Stats.Inc("probe:range-judged-later")
+		}
+		doc.Pending = nil
 		return doc.Arr, true
 	}
 	nops := c.Range("nops", 6, 40)
@@ -318,6 +345,18 @@ func (c17) Run(ctx *RunCtx) {
 			if doc.ArrOK && doc.ArrText == doc.Buf.String() && c.Pct("reuse-held-array", 70) {
 				full = doc.Arr
 				ctx.Stats.Inc("probe:range-judged-without-intermediate-full")
+			} else if c.Pct("judge-range-later", 50) {
+				// no full request now: the answers wait for the next full result
+				if doc.PendingText != doc.Buf.String() {
+					doc.Pending = nil // answers for an earlier text can no longer be judged
+				}
+				for _, a := range answers {
+					doc.Pending = append(doc.Pending, pendingRange{a.l1, a.l2, a.data})
+				}
+				doc.PendingText = doc.Buf.String()
+				kinds = append(kinds, "range")
+				ctx.T("op%d %d range request(s) on d%d, judged later", op, len(answers), doc.No)
+				continue
 			} else {
 				var ok bool
 				full, ok = askFull(doc, "reference for range")
